@@ -9,23 +9,42 @@ Import ListNotations.
 Definition atol : Q := Qmake 1 1000000000.
 Definition rtol : Q := Qmake 1 1000000000.
 
+(* Dyadic rationals (mantissa, exponent) = mantissa * 2^(-exponent): every float64 is one, sums and products of
+   dyadics are dyadic, and no gcd is ever needed.  The error model uses only 0, 1, +, -, * (never / or <=).
+   A sample of every run's cases is ALSO executed with Op (Qred after every operation) as a cross-check. *)
+Definition D := (Z * Z)%type.
+Definition dalign (a b : D) : Z * Z * Z :=
+  let e := Z.max (snd a) (snd b) in (Z.shiftl (fst a) (e - snd a), Z.shiftl (fst b) (e - snd b), e)%Z.
+Definition dadd (a b : D) : D := let '(x, y, e) := dalign a b in (x + y, e)%Z.
+Definition dsub (a b : D) : D := let '(x, y, e) := dalign a b in (x - y, e)%Z.
+Definition dmul (a b : D) : D := (fst a * fst b, snd a + snd b)%Z.
+Definition dopp (a : D) : D := (- fst a, snd a)%Z.
+Definition dleb (a b : D) : bool := let '(x, y, _) := dalign a b in Z.leb x y.
+Definition ddiv (a b : D) : D := (0, 0)%Z.   (* not a division: Model/Errors.v never divides *)
+Definition Dops : fops D := mkF (0, 0)%Z (1, 0)%Z dadd dsub dmul ddiv dopp dleb.
+Definition d2q (a : D) : Q :=
+  if (0 <=? snd a)%Z then Qred (Qmake (fst a) (Z.to_pos (2 ^ snd a))) else inject_Z (fst a * 2 ^ (- snd a)).
+
+Section A.
+Context {F : Type} (Op : fops F) (toQ : F -> Q).
+
 (* (squared unnormalised error, squared reference norm) against a reported RELATIVE error *)
-Definition rel_close (p : Q * Q) (rep : Q) : bool :=
-  let '(num, den) := p in
-  if Qle_bool den 0 then false else qclose atol rtol (Qred (num / den)) (Qred (rep * rep)).
+Definition rel_close (p : F * F) (rep : F) : bool :=
+  let num := toQ (fst p) in let den := toQ (snd p) in
+  if Qle_bool den 0 then false else qclose atol rtol (Qred (num / den)) (toQ (fmul Op rep rep)).
 
 (* configuration of a skeleton run; decisions: the iteration at which the callback asks to stop, and
    whether the line search accepts (same answer at every line-search iteration: both are tried) *)
-Record trace_obs := mkObs { n_reports : nat; n_callbacks : nat; n_updates : nat; broke : bool }.
+Record trace_obs := mkObs { n_reports : nat; n_callbacks : nat; broke : bool }.
 
 Inductive kind :=
-| KCP (X : tensor Q) (R : nat) (w : option (list Q)) (fs : list (tensor Q)) (Sp mask : option (tensor Q)) (rep : Q)
-| KCPfast (X : tensor Q) (R : nat) (w : option (list Q)) (fs : list (tensor Q)) (n : nat) (rep : Q)
-| KErrCalc (X : tensor Q) (R : nat) (w : option (list Q)) (fs : list (tensor Q)) (M : tensor Q) (n : nat) (rep : Q)
-| KTucker (X G : tensor Q) (fs : list (tensor Q)) (rep : Q)
-| KHooi (X G : tensor Q) (rep : Q)
-| KDense (X L : tensor Q) (rep : Q)
-| KCmtf (X : tensor Q) (R : nat) (fs : list (tensor Q)) (Y : tensor Q) (fsY : list (tensor Q)) (w wY : option (list Q)) (rep : Q)
+| KCP (X : tensor F) (R : nat) (w : option (list F)) (fs : list (tensor F)) (Sp mask : option (tensor F)) (rep : F)
+| KCPfast (X : tensor F) (R : nat) (w : option (list F)) (fs : list (tensor F)) (n : nat) (rep : F)
+| KErrCalc (X : tensor F) (R : nat) (w : option (list F)) (fs : list (tensor F)) (M : tensor F) (n : nat) (rep : F)
+| KTucker (X G : tensor F) (fs : list (tensor F)) (rep : F)
+| KHooi (X G : tensor F) (rep : F)
+| KDense (X L : tensor F) (rep : F)
+| KCmtf (X : tensor F) (R : nat) (fs : list (tensor F)) (Y : tensor F) (fsY : list (tensor F)) (w wY : option (list F)) (rep : F)
 | KTrace (modes : list nat) (normalize linesearch cb : bool) (n_iter_max : nat) (stop_at : option nat) (accept_ls : bool)
          (obs : trace_obs).
 
@@ -34,40 +53,46 @@ Definition count_events {B E} (p : event B E -> bool) (l : list (event B E)) : n
 Definition run_trace (modes : list nat) (normalize linesearch cb : bool) (n_iter_max : nat) (stop_at : option nat)
            (accept_ls : bool) : trace_obs :=
   let orc := @mkOracle unit (fun _ _ _ => tt) (fun st => st) (fun _ _ st => st) (fun _ => accept_ls)
-                      (fun it => match stop_at with Some j => Nat.eqb it j | None => false end) in
+                      (fun _ => false) (fun it => match stop_at with Some j => Nat.eqb it j | None => false end) in
   let cfg := mkConfig modes (last modes 0%nat) normalize false false linesearch true cb in
   let l := @run unit unit (fun _ _ _ => tt) (fun _ => tt) orc cfg n_iter_max (fun _ => tt) in
   mkObs (length (errs l))
         (count_events (fun ev => match ev with ECallback _ _ => true | _ => false end) (trace l))
-        (count_events (fun ev => match ev with EUpdate _ => true | _ => false end) (trace l))
         (Nat.ltb 0%nat (count_events (fun ev => match ev with EBreak => true | _ => false end) (trace l))).
 
 Definition obs_eqb (a b : trace_obs) : bool :=
   Nat.eqb (n_reports a) (n_reports b) && Nat.eqb (n_callbacks a) (n_callbacks b) &&
-  Nat.eqb (n_updates a) (n_updates b) && Bool.eqb (broke a) (broke b).
+  Bool.eqb (broke a) (broke b).
 
 Definition agree_kind (k : kind) : bool :=
   match k with
-  | KCP X R w fs Sp mask rep => rel_close (err_cp_true Qops X R w fs Sp mask) rep
+  | KCP X R w fs Sp mask rep => rel_close (err_cp_true Op X R w fs Sp mask) rep
   | KCPfast X R w fs n rep =>
-      let f := err_shortcut Qops X R w fs n in
-      let t := err_cp_true Qops X R w fs None None in
-      rel_close f rep && Qeq_bool (fst f) (fst t) && Qeq_bool (snd f) (snd t)
-  | KErrCalc X R w fs M n rep => rel_close (err_shortcut_with Qops X R w fs M n) rep
-  | KTucker X G fs rep => rel_close (err_tucker_true Qops X G fs) rep
-  | KHooi X G rep => rel_close (err_hooi Qops X G) rep
-  | KDense X L rep => rel_close (err_dense Qops X L) rep
+      let f := err_shortcut Op X R w fs n in
+      let t := err_cp_true Op X R w fs None None in
+      rel_close f rep && Qeq_bool (toQ (fst f)) (toQ (fst t)) && Qeq_bool (toQ (snd f)) (toQ (snd t))
+  | KErrCalc X R w fs M n rep => rel_close (err_shortcut_with Op X R w fs M n) rep
+  | KTucker X G fs rep => rel_close (err_tucker_true Op X G fs) rep
+  | KHooi X G rep => rel_close (err_hooi Op X G) rep
+  | KDense X L rep => rel_close (err_dense Op X L) rep
   | KCmtf X R fs Y fsY w wY rep =>
-      let a := err_cp_true Qops X R w fs None None in
-      let b := err_cp_true Qops Y R wY fsY None None in
+      let a := err_cp_true Op X R w fs None None in
+      let b := err_cp_true Op Y R wY fsY None None in
       (* documented squared, unnormalised form; compared relative to ||X||^2 + ||Y||^2 *)
-      let den := Qred (snd a + snd b) in
+      let den := Qred (toQ (snd a) + toQ (snd b)) in
       if Qle_bool den 0 then false
-      else qclose atol rtol (Qred ((fst a + fst b) / den)) (Qred (rep / den))
+      else qclose atol rtol (Qred ((toQ (fst a) + toQ (fst b)) / den)) (Qred (toQ rep / den))
   | KTrace modes nrm ls cb n stop_at acc obs => obs_eqb (run_trace modes nrm ls cb n stop_at acc) obs
   end.
 
-Definition case := (nat * kind)%type.
-Definition agree (c : case) : bool := agree_kind (snd c).
+End A.
+
+(* inl: dyadic execution; inr: the same case executed with Qops *)
+Definition case := (nat * (@kind D + @kind Q))%type.
+Definition agree (c : case) : bool :=
+  match snd c with
+  | inl k => agree_kind Dops d2q k
+  | inr k => agree_kind Qops (fun x => x) k
+  end.
 Definition ident (c : case) : nat := fst c.
 Definition failing := failing_ids agree ident.
